@@ -23,7 +23,7 @@ RULE = (
     "Non-trivial = non-uniform p AND >=1 duplicated AND >=1 dropped source row."
 )
 ASSUMPTIONS = [
-    "p tolerance: 64*eps*(max|incremental log w|+1) + N*eps relative to each p_i plus 1e-300 absolute",
+    "p tolerance: 64*eps*(max|incremental log w|+1) + N*eps relative to each p_i plus 1e-300 (float64) or 1e-30 (float32, sub-normal range) absolute",
     "the recording generator forwards to numpy.random.Generator(seed) so index draws are genuine",
 ]
 
